@@ -328,6 +328,11 @@ def _pred_pair(case, impl):
                                        detail=f"vial {i} is liquid and supercooled ({mid[i]:.4f} < {TeqL}) at the trigger "
                                               f"step {k} but t_nucleation={tn[i]}"))
                     break
+                if not liquid[i] and nuc_step[i] == k:
+                    out.append(Failure(clause="cn_all_eligible_fire", key=f"cn_all_eligible_fire|{site}|already-frozen",
+                                       detail=f"vial {i} already contains ice at the trigger step {k} but its t_nucleation "
+                                              f"is rewritten to {tn[i]}"))
+                    break
                 if liquid[i] and not cand[i] and nuc_step[i] == k:
                     out.append(Failure(clause="cn_all_eligible_fire", key=f"cn_all_eligible_fire|{site}|not-supercooled",
                                        detail=f"vial {i} is not supercooled at the trigger step but nucleates"))
